@@ -227,7 +227,8 @@ func parseExpr(ctx *Context, e ast.Expr) *pattern {
 		if !ok || lit.Kind != token.INT {
 			return nil
 		}
-		length, err := strconv.ParseInt(lit.Value, 10, 64)
+		// Base 0 is the Go integer literal syntax: 010 is 8, 0x10 is 16, 1_0 is 10.
+		length, err := strconv.ParseInt(lit.Value, 0, 64)
 		if err != nil {
 			return nil
 		}
